@@ -14,7 +14,7 @@ LEVEL_TEXT = (
     'are the negated condition over the unified isna mask and Frame / Series dropna select labels and data with those same keys; (d) edge fills: per path, '
     'the leading / forward-bridging slice is slice(0, T[0]) and the trailing / backward one slice(T[-1] + 1, end) with T the positions of present cells, '
     'chosen by the routine\'s own direction flag; (e) contradiction rule: within one loop all paths update the same carried counter cell the same way '
-    '(accumulate or define); (f) every fill / isna / notna interface of Series and Frame returns a container labelled by exactly the original index (and columns) and, for fills, the original name. Option forwarding: in every missing-value interface each call to a resolved callee that accepts a parameter named like one of the function\'s own parameters passes it on (confirmed exceptions listed in sfa/rules/forwardrules.py). Finite case analysis over the eleven dtype kinds: in isna_array, _ufunc_logical_skipna and the arg-extreme helpers no return is reachable for a kind that can hold a missing value (f, c, M, m, O) before a missing-value predicate was consulted. Configured generic check: no np attribute removed from the pinned NumPy 2.x is referenced in core (np.in1d made isin / label-aligned fillna raise). Sibling defaults: a parameter taken by the same-named method of several container classes has the same default in each (confirmed exceptions listed in sfa/rules/forwardrules.py). Aligned positional stores: a labelled value stored into selected positions is reindexed to the own labels of the receiver at exactly those positions (same key for alignment and store). Derived flags: a local recording a fact about an array (any / all / sum / len) is not tested after that array was changed in place (a block is passed through untouched exactly when the narrowed mask is empty). Not decided: binary_transition / slices_from_targets arithmetic, limit counting across blocks beyond (e), count values.')
+    '(accumulate or define); (f) every fill / isna / notna interface of Series and Frame returns a container labelled by exactly the original index (and columns) and, for fills, the original name. Option forwarding: in every missing-value interface each call to a resolved callee that accepts a parameter named like one of the function\'s own parameters passes it on (confirmed exceptions listed in sfa/rules/forwardrules.py). Finite case analysis over the eleven dtype kinds: in isna_array, _ufunc_logical_skipna and the arg-extreme helpers no return is reachable for a kind that can hold a missing value (f, c, M, m, O) before a missing-value predicate was consulted. Configured generic check: no np attribute removed from the pinned NumPy 2.x is referenced in core (np.in1d made isin / label-aligned fillna raise). Sibling defaults: a parameter taken by the same-named method of several container classes has the same default in each (confirmed exceptions listed in sfa/rules/forwardrules.py). Aligned positional stores: a labelled value stored into selected positions is reindexed to the own labels of the receiver at exactly those positions (same key for alignment and store). Derived flags: a local recording a fact about an array (any / all / sum / len) is not tested after that array was changed in place (a block is passed through untouched exactly when the narrowed mask is empty). Carried state: in the block-walking fill routines the state carried from block to block (exit mask, bridging values / counts) is assigned on every path to the next iteration, `continue` included. Not decided: binary_transition / slices_from_targets arithmetic, limit counting across blocks beyond (e), count values.')
 
 CLAIM = dict(
     text=LEVEL_TEXT,
@@ -36,3 +36,4 @@ def run(ctx: Ctx) -> None:
     flowmisc.numpy_removed_api(ctx)
     forwardrules.sibling_defaults(ctx, prefixes=('fillna', 'dropna', 'isna', 'notna', '_fillna', 'count', 'fillfalsy', 'dropfalsy'), suffix='na', floor=6)
     flowmisc.stale_derived_flag(ctx)
+    narules.carried_state_every_iteration(ctx)
